@@ -34,6 +34,28 @@ func init() {
 		{"D", proto.B("/a"), proto.L([]string{"post"}), proto.L([]string{"/{y}--{petId}/*/{k1}"}), proto.B("post"), proto.B("/a/;--1/*/a-b")},
 		// F01e (fixed): a template with a trailing slash used to be unroutable
 		{"D", proto.B("/"), proto.L([]string{"head"}), proto.L([]string{"/a/"}), proto.B("HEAD"), proto.B("/a/")},
+		// F01g (fixed): the composite split ran on the unescaped text, an escaped separator split the value
+		{"D", proto.B("/"), proto.L([]string{"get"}), proto.L([]string{"/x/{a}-{b}"}), proto.B("GET"), proto.B("/x/foo%2Dbar-baz")},
+		{"D", proto.B("/"), proto.L([]string{"get"}), proto.L([]string{"/files/{name}.{ext}"}), proto.B("GET"), proto.B("/files/a%2Eb.c")},
+		// composite segments: prefix text behind a whole-segment placeholder, suffix text, three placeholders
+		{"D", proto.B("/"), proto.L([]string{"get"}), proto.L([]string{"/a/{x}/v{major}.{minor}"}), proto.B("GET"), proto.B("/a/q/v1.2")},
+		{"D", proto.B("/"), proto.L([]string{"get"}), proto.L([]string{"/pets/{id}.json"}), proto.B("GET"), proto.B("/pets/5.json")},
+		{"D", proto.B("/"), proto.L([]string{"put"}), proto.L([]string{"/d/{y}-{m}--{d}.txt"}), proto.B("PUT"), proto.B("/d/2026-09--30.txt")},
+		// ambiguous instantiations: adjacent placeholders, a value containing the separator
+		{"D", proto.B("/"), proto.L([]string{"get"}), proto.L([]string{"/x/{a}{b}"}), proto.B("GET"), proto.B("/x/foo")},
+		{"D", proto.B("/"), proto.L([]string{"get"}), proto.L([]string{"/x/{a}--{b}"}), proto.B("GET"), proto.B("/x/a---b")},
+		// the same placeholder name as a whole segment in one template and inside a composite segment of another
+		{"D", proto.B("/"), proto.L([]string{"get", "get"}), proto.L([]string{"/files/{id}.json", "/pets/{id}"}), proto.B("GET"), proto.B("/pets/42")},
+		{"D", proto.B("/"), proto.L([]string{"get", "get"}), proto.L([]string{"/files/{id}.json", "/pets/{id}"}), proto.B("GET"), proto.B("/pets/rex.json")},
+		{"D", proto.B("/"), proto.L([]string{"get", "put", "get"}), proto.L([]string{"/pets/{id}", "/pets/{id}", "/a/{x}/{id}-{b}"}), proto.B("PUT"), proto.B("/pets/a-b")},
+		// reading: between a composite segment with a static prefix (p{d}) and a parameter ({t}) the property states no preference
+		{"D", proto.B("/"), proto.L([]string{"Post", "Post", "patch"}), proto.L([]string{"/p{d}/{y}", "/{t}/a-b", "/"}), proto.B("post"), proto.B("/p/a-b")},
+		// F01h: every placeholder behind static text of its segment: the key /v:major is filed as static text
+		{"D", proto.B("/"), proto.L([]string{"get"}), proto.L([]string{"/v{major}.{minor}"}), proto.B("GET"), proto.B("/v1.2")},
+		{"D", proto.B("/"), proto.L([]string{"get"}), proto.L([]string{"/v{major}.{minor}"}), proto.B("GET"), proto.B("/v:major")},
+		// F01i: the path segment does not fit the composite pattern, the handler runs with empty values
+		{"D", proto.B("/"), proto.L([]string{"get"}), proto.L([]string{"/pets/{id}.json"}), proto.B("GET"), proto.B("/pets/5.xml")},
+		{"D", proto.B("/"), proto.L([]string{"get", "post"}), proto.L([]string{"/pets/{id}.json", "/pets/{id}"}), proto.B("PUT"), proto.B("/pets/5.xml")},
 		// F01c: ':' in the static text of a parameterised template
 		{"D", proto.B("/"), proto.L([]string{"get"}), proto.L([]string{"/a:b/{id}"}), proto.B("GET"), proto.B("/aXYZ/5")},
 	}})
@@ -103,11 +125,21 @@ func c01Exec(in []string) []string {
 	// two operations with the same method+template collapse in the description: not a valid input
 	seen := map[string]bool{}
 	for i := range methods {
+		switch strings.ToLower(methods[i]) {
+		case "get", "put", "post", "delete", "options", "head", "patch":
+		default:
+			// not an operation of a swagger 2.0 path item: the description would silently lose it
+			return []string{"INVALID"}
+		}
 		k := strings.ToLower(methods[i]) + " " + templates[i]
 		if seen[k] {
 			return []string{"INVALID"}
 		}
 		seen[k] = true
+		if !strings.HasPrefix(templates[i], "/") || !c01BracesPair(templates[i]) {
+			// not a path template: no leading slash, or braces that do not pair up into {name} placeholders
+			return []string{"INVALID"}
+		}
 	}
 	req, err := http.ReadRequest(bufio.NewReader(strings.NewReader(method + " " + target + " HTTP/1.1\r\nHost: example.test\r\n\r\n")))
 	if err != nil || req.URL.EscapedPath() != target {
@@ -138,12 +170,52 @@ func c01Exec(in []string) []string {
 
 var c01Segs = []string{"pets", "store", "a", "b", "ab", "v1", "x.y", "mine", "é", "a-b", "a_b", "~u"}
 
-func c01Template(r *proto.Rng, odd bool) string {
+// c01Composite writes one segment that mixes placeholders with static text:
+// [prefix] {n0} sep {n1} [sep {n2}] [suffix]
+func c01Composite(r *proto.Rng, name func() string) string {
+	var sb strings.Builder
+	k := 1 + r.Intn(3)
+	if r.Chance(1, 4) {
+		sb.WriteString(r.Pick("v", "v", "p_", "id-", "x."))
+	}
+	for i := 0; i < k; i++ {
+		if i > 0 {
+			if r.Chance(1, 12) {
+				// adjacent placeholders
+			} else {
+				sb.WriteString(r.Pick("-", "-", ".", ".", "_", ",", "--", "..", "-.", "__", ":", "@"))
+			}
+		}
+		sb.WriteString("{" + name() + "}")
+	}
+	if sb.Len() > 0 && (k == 1 && !strings.HasPrefix(sb.String(), "{") && r.Chance(1, 2)) {
+		return sb.String() // prefix only: v{n}
+	}
+	if k == 1 || r.Chance(1, 3) {
+		sb.WriteString(r.Pick(".json", ".json", ".xml", "-x", "!", ":cancel", ".", "--"))
+	}
+	return sb.String()
+}
+
+// c01Template writes one path template. shared (when not empty) is a placeholder name the templates
+// of one description prefer, so that the same name occurs in several templates: as a whole segment
+// in one, inside a composite segment ({id}.json, v{id}, {id}-{b}) in another.
+func c01Template(r *proto.Rng, odd, comp bool, shared string) string {
 	n := 1 + r.Intn(4)
 	var sb strings.Builder
-	names := []string{"id", "petId", "name", "x", "y", "k1", "k2", "n"}
+	names := []string{"id", "petId", "name", "x", "y", "k1", "k2", "n", "ext", "major", "minor", "a", "b"}
 	name := func() string {
+		if len(names) == 0 {
+			return "z"
+		}
 		j := r.Intn(len(names))
+		if shared != "" && r.Chance(1, 2) {
+			for k, nm := range names {
+				if nm == shared {
+					j = k
+				}
+			}
+		}
 		nm := names[j]
 		names = append(names[:j:j], names[j+1:]...)
 		return nm
@@ -151,6 +223,10 @@ func c01Template(r *proto.Rng, odd bool) string {
 	for i := 0; i < n; i++ {
 		sb.WriteByte('/')
 		switch k := r.Intn(10); {
+		case k < 3:
+			sb.WriteString("{" + name() + "}")
+		case k < 6 && comp:
+			sb.WriteString(c01Composite(r, name))
 		case k < 4:
 			sb.WriteString("{" + name() + "}")
 		case k < 5 && odd:
@@ -178,6 +254,15 @@ func c01Template(r *proto.Rng, odd bool) string {
 	return sb.String()
 }
 
+var c01Values = []string{"1", "42", "kitty", "a%2Fb", "50%25", "%zz", ":", "*", "%23", ";", "a=b", "%C3%A9", ".", "..", "", "x.json", "a-b", "a--b", "mine", "a:b", "a+b", "+1", "%2B", "a%20b", "%41", "%7Bx%7D", "a,b", "@", "$", "&", "!", "(x)", "'", "~"}
+
+// values for the placeholders of a composite segment: mostly free of every separator (one
+// instantiation), some that contain or escape a separator, some empty
+var c01PlainValues = []string{"1", "42", "kitty", "abc", "x", "Z9", "7", "report", "pdf", "0"}
+var c01SepValues = []string{"", "", "a-b", "a--b", "a.b", "1.2", "x.json", "-", ".", "..", "--", "a_b", "a,b", "x-", "-x", ".x", "x.",
+	"a%2Db", "%2D", "a%2D%2Db", "a%2Eb", "%2E", "%2E%2E", "a%5Fb", "a%2Cb", "%2Djson", "a%2Ejson", "50%25", "a%2Fb", "a:b", "a%3Ab", "a@b", "%40",
+	"a+b", "%C3%A9", "a%20b", "%41", "!", "~"}
+
 func c01Instance(r *proto.Rng, base, tmpl string) string {
 	full := strings.TrimRight(base, "/") + tmpl
 	if !strings.HasPrefix(full, "/") {
@@ -188,7 +273,15 @@ func c01Instance(r *proto.Rng, base, tmpl string) string {
 		if full[i] == '{' {
 			j := strings.IndexByte(full[i:], '}')
 			if j > 0 {
-				sb.WriteString(r.Pick("1", "42", "kitty", "a%2Fb", "50%25", "%zz", ":", "*", "%23", ";", "a=b", "%C3%A9", ".", "..", "", "x.json", "a-b", "a--b", "mine", "a:b", "a+b", "+1", "%2B", "a%20b", "%41", "%7Bx%7D", "a,b", "@", "$", "&", "!", "(x)", "'", "~"))
+				whole := full[i-1] == '/' && (i+j+1 == len(full) || full[i+j+1] == '/')
+				switch {
+				case whole:
+					sb.WriteString(r.Pick(c01Values...))
+				case r.Chance(3, 5):
+					sb.WriteString(r.Pick(c01PlainValues...))
+				default:
+					sb.WriteString(r.Pick(c01SepValues...))
+				}
 				i += j
 				continue
 			}
@@ -198,10 +291,61 @@ func c01Instance(r *proto.Rng, base, tmpl string) string {
 	return sb.String()
 }
 
+// c01BracesPair: every '{' opens a non-empty brace-free name closed by '}', no '}' elsewhere
+func c01BracesPair(t string) bool {
+	for i := 0; i < len(t); i++ {
+		switch t[i] {
+		case '}':
+			return false
+		case '{':
+			j := i + 1
+			for j < len(t) && t[j] != '{' && t[j] != '}' {
+				j++
+			}
+			if j == len(t) || t[j] != '}' || j == i+1 {
+				return false
+			}
+			i = j
+		}
+	}
+	return true
+}
+
+// c01HasComposite: some segment mixes a placeholder with other text
+func c01HasComposite(t string) bool {
+	for _, seg := range strings.Split(t, "/") {
+		if strings.Contains(seg, "{") && !(strings.HasPrefix(seg, "{") && strings.HasSuffix(seg, "}") && strings.Count(seg, "{") == 1) {
+			return true
+		}
+	}
+	return false
+}
+
+// c01RepeatsName: a placeholder name occurs twice in the template (not a valid description)
+func c01RepeatsName(t string) bool {
+	seen := map[string]bool{}
+	for i := 0; i < len(t); i++ {
+		if t[i] == '{' {
+			if j := strings.IndexByte(t[i:], '}'); j > 0 {
+				if seen[t[i:i+j]] {
+					return true
+				}
+				seen[t[i:i+j]] = true
+			}
+		}
+	}
+	return false
+}
+
 func c01Gen(r *proto.Rng, n int, tier string, emit func(in ...string)) {
 	allMethods := []string{"get", "post", "put", "delete", "GET", "Post", "patch", "head"}
 	for i := 0; i < n; {
 		odd := r.Chance(1, 6)
+		comp := !odd && r.Chance(2, 5) // descriptions with composite segments: [prefix]{a}sep{b}[suffix]
+		shared := ""
+		if r.Chance(2, 3) {
+			shared = r.Pick("id", "id", "name", "x", "petId")
+		}
 		base := r.Pick("/", "/", "", "/api", "/api/", "/v1/base", "/a")
 		nops := 1 + r.Intn(7)
 		if tier == "thorough" && r.Chance(1, 4) {
@@ -210,15 +354,15 @@ func c01Gen(r *proto.Rng, n int, tier string, emit func(in ...string)) {
 		var methods, templates []string
 		seen := map[string]bool{}
 		for len(methods) < nops {
-			t := c01Template(r, odd)
+			t := c01Template(r, odd, comp, shared)
 			if len(templates) > 0 && r.Chance(1, 3) {
 				// sibling: shares a prefix with an earlier template
 				prev := templates[r.Intn(len(templates))]
 				if j := strings.LastIndexByte(strings.TrimRight(prev, "/"), '/'); j > 0 {
-					t = prev[:j] + c01Template(r, odd)
+					t = prev[:j] + c01Template(r, odd, comp, shared)
 				}
 			}
-			if strings.Count(t, "{id}") > 1 || strings.Count(t, "{x}") > 1 || strings.Count(t, "{name}") > 1 || strings.Count(t, "{petId}") > 1 || strings.Count(t, "{y}") > 1 || strings.Count(t, "{n}") > 1 || strings.Count(t, "{k1}") > 1 || strings.Count(t, "{k2}") > 1 {
+			if c01RepeatsName(t) {
 				continue
 			}
 			m := r.Pick(allMethods...)
@@ -240,8 +384,17 @@ func c01Gen(r *proto.Rng, n int, tier string, emit func(in ...string)) {
 		lm, lt := proto.L(methods), proto.L(templates)
 		for j := 0; j < 8 && i < n; j++ {
 			t := templates[r.Intn(len(templates))]
+			if comp && !c01HasComposite(t) && r.Chance(1, 2) {
+				t = templates[r.Intn(len(templates))]
+			}
 			p := c01Instance(r, base, t)
-			switch r.Intn(10) {
+			switch r.Intn(11) {
+			case 10:
+				// drop one byte (a separator, a suffix byte, ...)
+				if len(p) > 2 {
+					k := 1 + r.Intn(len(p)-1)
+					p = p[:k] + p[k+1:]
+				}
 			case 0:
 				p += "/"
 			case 1:
@@ -257,7 +410,7 @@ func c01Gen(r *proto.Rng, n int, tier string, emit func(in ...string)) {
 				}
 			}
 			m := r.Pick("GET", "get", "POST", "Put", "DELETE", "PATCH", "HEAD", "OPTIONS")
-			if r.Chance(1, 2) {
+			if r.Chance(1, 2) || (comp && r.Chance(1, 2)) {
 				m = strings.ToUpper(methods[r.Intn(len(methods))])
 				if r.Chance(1, 4) {
 					m = strings.ToLower(m)
